@@ -6,6 +6,7 @@ package main
 // type-confused) for each kind of field and structural mutations of XML/JSON bodies.
 
 import (
+	"bytes"
 	"fmt"
 	"regexp"
 	"sort"
@@ -98,13 +99,22 @@ type c20Fix struct {
 	PartETags  []string
 	VersionID  string // a version of fzv/v1
 	VersionID2 string
+	// version ids of the keys of the versioned state world ("{dm.marker}", "{multi.old}", …), filled in by ensureStates
+	Vars map[string]string
 }
 
 func (f *c20Fix) subst(s string) string {
 	r := strings.NewReplacer("{uid2}", f.UploadID2, "%7Buid2%7D", f.UploadID2, "{uid}", f.UploadID, "{vid}", f.VersionID, "{vid2}", f.VersionID2,
 		"{e1}", f.etag(0), "{e2}", f.etag(1), "{e3}", f.etag(2), "{user}", f.User.Access,
 		"%7Buid%7D", f.UploadID, "%7Bvid%7D", f.VersionID, "%7Bvid2%7D", f.VersionID2, "%7Buser%7D", f.User.Access)
-	return r.Replace(s)
+	s = r.Replace(s)
+	if strings.Contains(s, "{") || strings.Contains(s, "%7B") {
+		for k, v := range f.Vars {
+			s = strings.ReplaceAll(s, k, v)
+			s = strings.ReplaceAll(s, "%7B"+k[1:len(k)-1]+"%7D", v)
+		}
+	}
+	return s
 }
 func (f *c20Fix) etag(i int) string {
 	if i < len(f.PartETags) {
@@ -199,6 +209,13 @@ var c20Ops = []c20Op{
 	{Name: "CopyObject", Method: "PUT", Path: "/fzb/copy1", Hdrs: []string{"x-amz-copy-source: /fzb/o1", "x-amz-metadata-directive: REPLACE", "x-amz-tagging-directive: REPLACE", "x-amz-tagging: a=b", "x-amz-meta-k: v", "x-amz-copy-source-if-none-match: y", "x-amz-copy-source-if-modified-since: 20060102T150405Z", "x-amz-copy-source-if-unmodified-since: 20360102T150405Z", "x-amz-checksum-algorithm: CRC32", "x-amz-storage-class: STANDARD"}},
 	{Name: "CopyObjectLocked", Method: "PUT", Path: "/fzl/copy3", Hdrs: []string{"x-amz-copy-source: fzb/o1", "x-amz-object-lock-mode: GOVERNANCE", "x-amz-object-lock-retain-until-date: 2036-01-02T15:04:05Z", "x-amz-object-lock-legal-hold: ON"}},
 	{Name: "CopyObjectVersion", Method: "PUT", Path: "/fzb/copy2", Hdrs: []string{"x-amz-copy-source: fzv/v1?versionId={vid}"}},
+	// ---- plain forms used by the state matrix (no conditional headers)
+	{Name: "HeadObjectPlain", Method: "HEAD", Path: "/fzb/o1"},
+	{Name: "GetObjectPlain", Method: "GET", Path: "/fzb/o1"},
+	{Name: "DeleteObjectPlain", Method: "DELETE", Path: "/fzb/del1"},
+	{Name: "CopyObjectPlain", Method: "PUT", Path: "/fzb/copyt", Hdrs: []string{"x-amz-copy-source: fzb/o1"}},
+	{Name: "PutObjectPlain", Method: "PUT", Path: "/fzb/new9", Body: "data:10", Stream: true},
+	{Name: "UploadPartPlain", Method: "PUT", Path: "/fzb/mp", Query: "uploadId={uid}&partNumber=6", Body: "data:10", Stream: true},
 	// ---- admin API (own listener)
 	{Name: "AdminCreateUser", Method: "PATCH", Path: "/create-user", Body: "adminuser", Admin: true},
 	{Name: "AdminUpdateUser", Method: "PATCH", Path: "/update-user", Query: "access=fzuser2", Body: "adminupdate", Admin: true},
@@ -275,7 +292,8 @@ var c20Pools = map[string][]string{
 	"num": {"", "0", "-1", "1", "2", "3", "1000", "1001", "10000", "10001", "2147483647", "2147483648", "-2147483648", "-2147483649", "4294967296",
 		"9223372036854775807", "9223372036854775808", "-9223372036854775808", "99999999999999999999999", "abc", "1e3", "0x10", "+5", " 5", "5 ", "1.5", "00", "-0", "٣", "1,2", "\x00", "NaN", "true", c20Long},
 	"id": {"", "x", "null", "..", ".", "../x", "a/b", "%", "\x00", "\xff\xfe", c20Long, "00000000-0000-0000-0000-000000000000", "01JZZZZZZZZZZZZZZZZZZZZZZZ",
-		"{uid}", "{vid}", "{vid2}", "{uid}x", "{vid}x", " {uid}", "{uid}/", "é"},
+		"{uid}", "{vid}", "{vid2}", "{uid}x", "{vid}x", " {uid}", "{uid}/", "é",
+		"{dm.marker}", "{dm.old}", "{multi.cur}", "{multi.old}", "{nullcur.old}", "{s_dm.old}", "{s_multi.old}", "{l_hold.cur}"},
 	"str": {"", "/", "//", "a", "a/", "d", "dir/", "dir/o2", "mp", "o1", "zzzz", "\x00", "\xff\xfe", "%", "%zz", "+", " ", "..", "../", "../../etc", ".", "./", "é", " ", "a\nb", "a\r\nX-Inj: 1",
 		"*", "?", "&", "=", "#", c20Long, c20VeryLong, "url", "URL", "dir//", "/dir", ".sgwtmp", ".sgwtmp/", "d\x7f"},
 	"range": {"", "bytes=0-", "bytes=-1", "bytes=0-0", "bytes=5-2", "bytes=-0", "bytes=0-99999999999999999999", "bytes=99999999999999999999-", "bytes=-99999999999999999999", "bytes=9223372036854775807-",
@@ -670,7 +688,8 @@ var c20ExtraHdr = []string{"Range", "x-amz-copy-source", "x-amz-copy-source-rang
 var c20PathPool = []string{"/", "//", "/fzb", "/fzb/", "/fzb//", "/fzb/o1", "/fzb/o1/", "/fzb//o1", "/fzb/dir", "/fzb/dir/", "/fzb/dir/o2/", "/fzb/dir/o2/x", "/fzb/mp", "/fzb/big", "/fzv/v1", "/fzl/l1", "/nobucket", "/nobucket/k", "/fzb/nokey", "/FZ", "/f", "/fzb.",
 	"/-fzb", "/192.168.1.1", "/fzb/%00", "/fzb/%ff%fe", "/%00", "/fzb/%2e%2e/x", "/fzb/../x", "/fzb/./x", "/../x", "/..", "/.", "/fzb/..", "/fzb/.", "/fzb/a%2Fb", "/fzb/%", "/fzb/%zz", "/%", "/fzb/+", "/fzb/a b", "/fzb/a%20b", "/fzb/?", "/fzb/%3F", "/fzb/%23",
 	"/fzb/" + c20Long, "/" + c20Long, "/fzb/" + strings.Repeat("d/", 300) + "x", "/fzb/.sgwtmp/x", "/.sgwtmp", "/fzb/é", "/fzb/%C3%A9", "/fzb/o1%0d%0aX-Inj:%201", "fzb", "fzb/o1", "", "*", "http://example.com/fzb/o1", "//fzb/o1", "/fzb/o1//", "/fzb/dir//o2",
-	"/create-user", "/list-users", "/delete-user", "/update-user", "/change-bucket-owner", "/list-buckets", "/health"}
+	"/create-user", "/list-users", "/delete-user", "/update-user", "/change-bucket-owner", "/list-buckets", "/health",
+	"/fzv/dm", "/fzv/multi", "/fzv/nullcur", "/fzv/vdir/", "/fzs/s_dm", "/fzs/s_multi", "/fzl/l_hold", "/fzl/l_ret", "/fzv/dm/", "/fzv/multi/x"}
 
 var c20Methods = []string{"GET", "PUT", "POST", "DELETE", "HEAD", "PATCH", "OPTIONS", "TRACE", "CONNECT", "get", "BREW"}
 
@@ -1006,6 +1025,8 @@ func c20ApplyWireMut(name string, wire []byte) []byte {
 		if i := strings.LastIndex(string(wire), "x-amz-checksum-"); i >= 0 {
 			return append(append([]byte{}, wire...), wire[i:]...)
 		}
+	case strings.HasPrefix(name, "cut:"):
+		return c20Cut(wire, name[4:])
 	case name == "junk":
 		return []byte("\x00\xff\r\n\r\n;;==\r\n")
 	case name == "empty":
@@ -1112,4 +1133,101 @@ func (b c20Built) String() string {
 		body = body[:400] + fmt.Sprintf("…(%d bytes)", len(b.Body))
 	}
 	return fmt.Sprintf("%s %s [%s] {%s} body=%q", b.Method, t, b.Target, strings.Join(hs, "; "), body)
+}
+
+// ---------------------------------------------------------------- framing cuts
+
+// c20Cut ends the encoded aws-chunked stream at a framing boundary: "crlf:<i>" = right after the
+// i-th CRLF (0 = empty body), "mid:<i>" = one byte into the token that follows it, "lf:<i>" = the
+// i-th CRLF itself cut between CR and LF. Content-Length is computed from what is sent, so the
+// HTTP layer hands the body reader a clean EOF at exactly that place.
+func c20Cut(wire []byte, spec string) []byte {
+	kind, is, _ := strings.Cut(spec, ":")
+	n, _ := strconv.Atoi(is)
+	pos, seen := 0, 0
+	for seen < n {
+		j := bytes.Index(wire[pos:], []byte("\r\n"))
+		if j < 0 {
+			return wire
+		}
+		pos += j + 2
+		seen++
+	}
+	switch kind {
+	case "mid":
+		if pos+1 <= len(wire) {
+			return wire[:pos+1]
+		}
+	case "lf":
+		if pos >= 1 && n > 0 {
+			return wire[:pos-1]
+		}
+	}
+	return wire[:pos]
+}
+
+// c20FramingCuts: the stream of every streaming mode cut at every framing boundary, for PutObject and UploadPart.
+func c20FramingCuts() []c20Case {
+	var out []c20Case
+	for _, ep := range []string{"PutObjectPlain", "UploadPartPlain"} {
+		for _, mode := range []string{"stream-unsigned-trailer", "stream-signed", "stream-signed-trailer"} {
+			// 10 bytes in two chunks: size line, data, size line, data, final chunk, trailer line(s), blank line
+			for i := 0; i <= 9; i++ {
+				for _, kind := range []string{"crlf", "mid", "lf"} {
+					if kind == "lf" && i == 0 {
+						continue
+					}
+					out = append(out, c20Case{Endpoint: ep, Class: "cut:" + mode, Auth: mode, Cred: "root", Chunks: []int{5}, Trailer: "crc32",
+						WireMut: fmt.Sprintf("cut:%s:%d", kind, i)})
+				}
+			}
+		}
+	}
+	return out
+}
+
+// ---------------------------------------------------------------- state matrix
+
+// keys of the versioned / locked state world (built by ensureStates) and how they can be addressed
+var c20StateKeys = []struct{ bucket, key string }{
+	{"fzv", "multi"}, {"fzv", "dm"}, {"fzv", "nullcur"}, {"fzv", "vdir/"}, {"fzv", "nokey"},
+	{"fzs", "s_multi"}, {"fzs", "s_dm"}, {"fzl", "l_hold"}, {"fzl", "l_ret"}, {"fzb", "mp"}, {"fzb", "dir/"},
+}
+
+// c20StateMatrix: every object-level operation on every key state, without a version id and with
+// versionId = current / an older one / a delete marker / null / garbage / an id of another key.
+// `destructive` cases change the state: the runner rebuilds it afterwards.
+func c20StateMatrix() (cases []c20Case, destructive []bool) {
+	type opSpec struct {
+		ep          string
+		destructive bool
+	}
+	ops := []opSpec{{"HeadObjectPlain", false}, {"GetObjectPlain", false}, {"GetObjectTagging", false}, {"GetObjectAttributes", false}, {"GetObjectAcl", false},
+		{"GetObjectRetention", false}, {"GetObjectLegalHold", false}, {"HeadObjectPart", false}, {"CopyObjectPlain", false},
+		{"PutObjectTagging", true}, {"DeleteObjectTagging", true}, {"PutObjectLegalHold", true}, {"PutObjectRetention", true}, {"DeleteObjectPlain", true}}
+	for _, sk := range c20StateKeys {
+		name := strings.TrimSuffix(sk.key, "/")
+		vids := []string{"", "{" + name + ".cur}", "{" + name + ".old}", "{" + name + ".marker}", "null", "garbage-id", "{multi.old}"}
+		for _, op := range ops {
+			for _, vid := range vids {
+				c := c20Case{Endpoint: op.ep, Class: "state:" + sk.bucket + "/" + sk.key, Auth: "header", Cred: "root"}
+				path := "/" + sk.bucket + "/" + sk.key
+				if op.ep == "CopyObjectPlain" {
+					src := sk.bucket + "/" + sk.key
+					if vid != "" {
+						src += "?versionId=" + vid
+					}
+					c.Muts = []c20Mut{{K: "h", N: "x-amz-copy-source", V: []byte(src)}}
+				} else {
+					c.Muts = []c20Mut{{K: "path", V: []byte(path)}, {K: "q-", N: "versionId"}}
+					if vid != "" {
+						c.Muts = append(c.Muts, c20Mut{K: "q+", N: "versionId", V: []byte(vid)})
+					}
+				}
+				cases = append(cases, c)
+				destructive = append(destructive, op.destructive)
+			}
+		}
+	}
+	return
 }
